@@ -1,6 +1,7 @@
 """C08 - keys and signatures: serialisation is lossless and sign/verify is sound (DESIGN.md section 4, C08)."""
 from __future__ import annotations
 
+import functools
 import hashlib
 import os
 
@@ -92,6 +93,44 @@ def _ref_point(curve: str, d: int):
     return c.mul(d, c.G)
 
 
+def _lz_top(curve: str) -> int:
+    """A number below 2^top has a leading zero byte in the fixed-width encoding (P-521: it fits into 64 bytes)."""
+    return 512 if curve == "secp521r1" else 8 * pk.CURVES[curve].size - 8
+
+
+@functools.lru_cache(maxsize=None)
+def _next_lz_scalar(curve: str, d: int, which: str) -> int:
+    """Smallest d' >= d (cyclically) whose public X / Y / either has a leading zero byte.
+
+    Same class as vf.gen.keys.leading_zero_scalar, but walks P, P+G, P+2G, ... with one point addition per step
+    (about 30 us) instead of one OpenSSL key derivation per step (0.1-0.4 ms; 512 expected steps on P-521)."""
+    c = pk.CURVES[curve]
+    lim = 1 << _lz_top(curve)
+    pt = c.mul(d, c.G)
+    while True:
+        zx, zy = pt[0] < lim, pt[1] < lim
+        if (which == "x" and zx) or (which == "y" and zy) or (which == "any" and (zx or zy)):
+            return d
+        d += 1
+        if d >= c.n:
+            d, pt = 1, c.G
+        else:
+            pt = c.add(pt, c.G)
+
+
+def _ec_scalars(curve: str, lz_share: float):
+    n = pk.CURVES[curve].n
+    plain = st.integers(1, n - 1)
+    lz = st.tuples(st.integers(1, n - 1), st.sampled_from(["x", "y", "any"])).map(lambda t: _next_lz_scalar(curve, t[0], t[1]))
+    k = max(1, round(1 / lz_share) - 1)
+    return st.one_of(*([plain] * k), lz)
+
+
+def _ec_key_desc(lz_share: float = 0.25):
+    """{"t": "ec", "curve": ..., "d": ...} as vf.gen.keys.ec_key_desc, with the cheaper leading-zero search."""
+    return st.sampled_from(list(CURVES)).flatmap(lambda c: _ec_scalars(c, lz_share).map(lambda d: {"t": "ec", "curve": c, "d": d}))
+
+
 def _scratch(name: str) -> str:
     d = _WORK["dir"]
     if d is None:
@@ -118,7 +157,7 @@ def _crypt_public_numbers(data: bytes, enc: str):
 # ------------------------------------------------------------------ ECC key serialisation
 def _ec_keys_case():
     return st.fixed_dictionaries({
-        "key": K.ec_key_desc(leading_zero_share=0.34),
+        "key": _ec_key_desc(0.25),
         "small_d": st.one_of(st.none(), st.none(), st.integers(1, 1 << 64)),  # private scalar with many leading zero bytes
         "pw": _password(),
         "other": st.integers(1, 1 << 200),
@@ -283,7 +322,7 @@ def run_ec_keys(case, o: Oracle) -> None:
         _check_certificate(o, ck, other_ck, want_pub, "ec")
         o.label("certificate")
 
-    top = 512 if curve == "secp521r1" else 8 * size - 8
+    top = _lz_top(curve)
     lz = x < (1 << top) or y < (1 << top)
     o.label("part:ec_keys", "curve:" + curve, _pw_label(pw))
     if lz:
@@ -297,6 +336,7 @@ def run_ec_keys(case, o: Oracle) -> None:
 
 # ------------------------------------------------------------------ RSA key serialisation (finite pool)
 _RSA_POOL = [(b, i) for b in sorted(K.RSA_POOL) for i in range(K.RSA_POOL[b])]
+_RSA_POOL_QUICK = [(b, i) for (b, i) in _RSA_POOL if b == 2048 or i < 2]  # parsing an RSA private key costs 40 / 130 / 300 ms
 _RSA_PW = [None, "test1234 Pass-phrase", "pässwörd-ключ-密码", "x", "ß€", "a b c  d", "~home $VAR %s {0}", "0" * 20]
 
 
@@ -304,15 +344,19 @@ def _rsa_pw_count(tier: str) -> int:
     return 3 if tier == "quick" else len(_RSA_PW)
 
 
+def _rsa_pool(tier: str):
+    return _RSA_POOL_QUICK if tier == "quick" else _RSA_POOL
+
+
 def _rsa_keys_count(tier: str) -> int:
-    return len(_RSA_POOL) * 2 * _rsa_pw_count(tier)
+    return len(_rsa_pool(tier)) * 2 * _rsa_pw_count(tier)
 
 
 def _rsa_keys_item(tier: str, i: int):
     npw = _rsa_pw_count(tier)
     k, rest = divmod(i, 2 * npw)
     e, p = divmod(rest, npw)
-    bits, idx = _RSA_POOL[k]
+    bits, idx = _rsa_pool(tier)[k]
     return {"key": {"t": "rsa", "bits": bits, "i": idx}, "enc": ("PEM", "DER")[e], "pw": _RSA_PW[p]}
 
 
@@ -329,7 +373,7 @@ def run_rsa_keys(case, o: Oracle) -> None:
     n, e, dd = pn.public_numbers.n, pn.public_numbers.e, pn.d
     if pn.p * pn.q != n or e != 65537 or n.bit_length() != bits or pow(pow(2, e, n), dd, n) != 2:
         raise HarnessError("RSA pool key %r is inconsistent" % (desc,))
-    other_ck = K.rsa_key(bits, idx + 1)
+    other_ck = K.rsa_key(bits, idx + 1) if bits == 2048 else K.rsa_key(2048, idx)
     sk = None
     with o.spsdk("rsa_private", "wrap"):
         sk = PrivateKeyRsa(ck)
@@ -338,8 +382,9 @@ def run_rsa_keys(case, o: Oracle) -> None:
         return
     with o.spsdk("rsa_private", "roundtrip"):
         data = sk.export(password=pw, encoding=E[enc])
-        second = _crypt_private_value(data, enc, pw)
-        o.eq("rsa_private", "second_reader", (second.d, second.public_numbers.n, second.public_numbers.e), (dd, n, e))
+        if bits == 2048:
+            second = _crypt_private_value(data, enc, pw)
+            o.eq("rsa_private", "second_reader", (second.d, second.public_numbers.n, second.public_numbers.e), (dd, n, e))
         for name, fn in (("typed", PrivateKeyRsa.parse), ("auto", PrivateKey.parse)):
             got = fn(data, password=pw)
             o.check("rsa_private", type(got) is PrivateKeyRsa, "type:" + name, type(got).__name__)
@@ -386,9 +431,10 @@ def run_rsa_keys(case, o: Oracle) -> None:
         o.check("rsa_public", not (pub == PublicKeyRsa.recreate(3, n)), "eq_other_exponent")
         o.check("rsa_public", not (pub == PublicKeyRsa.recreate(e, n + 2)), "eq_other_modulus")
     with o.spsdk("rsa_files", "save_load"):
-        p = _scratch("rsa-prv." + enc.lower())
-        sk.save(p, password=pw, encoding=E[enc])
-        o.eq("rsa_files", "private", PrivateKey.load(p, password=pw).key.private_numbers().d, dd)
+        if bits == 2048:
+            p = _scratch("rsa-prv." + enc.lower())
+            sk.save(p, password=pw, encoding=E[enc])
+            o.eq("rsa_files", "private", PrivateKey.load(p, password=pw).key.private_numbers().d, dd)
         for penc in ("PEM", "DER", "NXP"):
             p = _scratch("rsa-pub." + penc.lower())
             sk.get_public_key().save(p, encoding=E[penc])
@@ -406,7 +452,7 @@ def run_rsa_keys(case, o: Oracle) -> None:
 # ------------------------------------------------------------------ ECDSA: SPSDK signs
 def _ec_sign_case():
     return st.fixed_dictionaries({
-        "key": K.ec_key_desc(leading_zero_share=0.2),
+        "key": _ec_key_desc(0.2),
         "msg": _msg(),
         "alg": st.one_of(st.none(), st.sampled_from(ALGS)),
         "prehashed": st.sampled_from([False, False, True]),
@@ -415,7 +461,7 @@ def _ec_sign_case():
         "flip_s": st.integers(0, 1 << 24),
         "other": st.integers(1, 1 << 200),
         "other_curve": st.sampled_from(CURVES),
-        "sp": st.sampled_from([None, None, "file", "config", "local"]),
+        "sp": st.sampled_from([None, None, None, None, "file", "config", "local"]),
         "sp_pw": st.sampled_from([None, "c08 Secret-1", "hesložluťoučký-密码"]),
     })
 
@@ -464,7 +510,8 @@ def run_ec_sign(case, o: Oracle) -> None:
         o.check("ecdsa_sign", 1 <= r < c.n and 1 <= s < c.n, "rs_range", "r=%x s=%x" % (r, s))
         # independent verifier, same parameters; a pre-hashed signature is by definition a signature of the message
         o.check("ecdsa_sign", pk.ecdsa_verify(c, pubxy, r, s, data, eff_alg, prehashed), "reference_rejects", "alg %s prehashed %s" % (eff_alg, prehashed))
-        o.check("ecdsa_sign", pk.ecdsa_verify(c, pubxy, r, s, msg, eff_alg, False), "reference_rejects_message")
+        if prehashed:
+            o.check("ecdsa_sign", pk.ecdsa_verify(c, pubxy, r, s, msg, eff_alg, False), "reference_rejects_message")
         if r >> (8 * size - 8) == 0 or s >> (8 * size - 8) == 0:
             o.label("lz_rs")
     with o.spsdk("ecdsa_verify", "own"):
@@ -573,10 +620,10 @@ def _ec_refsig_case():
         return st.fixed_dictionaries({
             "curve": st.just(curve),
             "mode": st.sampled_from(["key", "key", "shaped_s", "shaped_s", "shaped_s", "eq_raw"]),
-            "d": K.ec_scalars(curve, 0.2),
+            "d": _ec_scalars(curve, 0.2),
             "k": st.integers(1, n - 1),
             "s": s_eq,
-            "lz_r": st.sampled_from([0, 0, 1]),
+            "lz_r": st.sampled_from([0, 0, 0, 1]),
             "eq_len": st.sampled_from([own_raw - 2, own_raw - 1, own_raw, own_raw, own_raw + 1]),
             "msg": _msg(),
             "alg": st.sampled_from(ALGS),
@@ -612,11 +659,7 @@ def run_ec_refsig(case, o: Oracle) -> None:
         r, s = rs
     else:
         if case["lz_r"]:
-            top = 8 * size - 8 if curve != "secp521r1" else 512
-            for _ in range(20000):
-                if K.ec_public_xy(curve, k)[0] % n < (1 << top):
-                    break
-                k = k % (n - 1) + 1
+            k = _next_lz_scalar(curve, k, "x")  # nonce whose point has a short X, i.e. r with a leading zero byte
         r = K.ec_public_xy(curve, k)[0] % n
         if r == 0:
             raise SkipCase()
@@ -836,7 +879,8 @@ def run_rsa_sign(case, o: Oracle) -> None:
     o.artifact("signature", sig)
     o.eq("rsa_sign", "length", len(sig), bits // 8)
     o.check("rsa_sign", ref_verify(sig, data, prehashed), "reference_rejects", "alg %s pss %s prehashed %s" % (eff_alg, pss, prehashed))
-    o.check("rsa_sign", ref_verify(sig, msg, False), "reference_rejects_message")
+    if prehashed:
+        o.check("rsa_sign", ref_verify(sig, msg, False), "reference_rejects_message")
     with o.spsdk("rsa_verify", "own"):
         o.check("rsa_verify", pub.verify_signature(sig, data, **kw) is True, "own_signature_rejected")
         if prehashed:
@@ -877,7 +921,7 @@ def run_rsa_sign(case, o: Oracle) -> None:
 
 # ------------------------------------------------------------------ nxpcrypto commands
 def _cli_case():
-    ec = K.ec_key_desc(leading_zero_share=0.25)
+    ec = _ec_key_desc(0.25)
     key = st.one_of(ec, ec, ec, K.rsa_key_desc(sizes=(2048,)))
     return st.fixed_dictionaries({
         "key": key,
@@ -1062,10 +1106,10 @@ def parts(ctx):
     _WORK["dir"] = os.path.join(ctx.work, "c08")
     return [
         EnumPart("rsa_keys", _rsa_keys_count, _rsa_keys_item, run_rsa_keys, exhaustive=False),
-        HypPart("ec_keys", _ec_keys_case(), run_ec_keys, {"quick": 1200, "thorough": 60000}),
-        HypPart("ec_sign", _ec_sign_case(), run_ec_sign, {"quick": 1200, "thorough": 60000}),
-        HypPart("ec_refsig", _ec_refsig_case(), run_ec_refsig, {"quick": 1200, "thorough": 60000}),
+        HypPart("ec_keys", _ec_keys_case(), run_ec_keys, {"quick": 1000, "thorough": 60000}),
+        HypPart("ec_sign", _ec_sign_case(), run_ec_sign, {"quick": 1000, "thorough": 60000}),
+        HypPart("ec_refsig", _ec_refsig_case(), run_ec_refsig, {"quick": 1000, "thorough": 60000}),
         HypPart("sig_codec", _sig_codec_case(), run_sig_codec, {"quick": 4000, "thorough": 300000}),
         HypPart("rsa_sign", _rsa_sign_case(), run_rsa_sign, {"quick": 1000, "thorough": 40000}),
-        HypPart("cli", _cli_case(), run_cli, {"quick": 600, "thorough": 15000}),
+        HypPart("cli", _cli_case(), run_cli, {"quick": 400, "thorough": 15000}),
     ]
